@@ -12,7 +12,7 @@ ExtOps == {"Returns", "Call"}      \* sequences extended between calls, also aft
 SeqOps == {"Return", "Returns", "When", "Call", "Reset"}
 LogNames == {"OpenDebug", "CloseDebug", "OpenTrace", "CloseTrace"}
 LogOps == AllOps \cup LogNames
-RejectOps == StubOps \cup {"Mistake"}
+RejectOps == StubOps \cup {"Mistake", "WhenBad"}
 ImageHeldOps == ImageOps \cup {"Held", "Call"}
 HeldOps == AllOps \cup {"Held"}
 GenericOps == {"Apply", "Return", "Returns", "Cancel", "Reset", "Call", "Held"}   \* generic function instantiations: no parameters, hence no When
